@@ -142,7 +142,7 @@ def build_sig_script(rng, xonly, allow_codesep, nsig=None, fill=True):
     return ss
 
 
-def make(rng, kind=None):
+def make(rng, kind=None, damage=False):
     """-> {"tx": hex, "txin": hex, "kind": kind, "opts": [...]}"""
     kind = kind or rng.weighted([(3, "p2pkh"), (2, "multisig"), (3, "p2sh-multisig"), (2, "p2sh-generic"), (1, "p2sh-empty"), (1, "p2wsh-template"), (2, "hashlock"), (2, "legacy-codesep"), (2, "p2wpkh"),
                                  (1, "p2sh-p2wpkh"), (4, "p2wsh"), (2, "p2sh-p2wsh"), (2, "p2tr"), (7, "tapscript")])
@@ -308,6 +308,17 @@ def make(rng, kind=None):
             tx.vin[0].witness.append(annex)
     else:
         raise ValueError(kind)
+    if kind == "tapscript" and damage:
+        # a hand-built spend that does not verify: one byte of the control block (a path node, the internal key or the
+        # leaf-version/parity byte) or of the leaf is wrong, so the commitment check fails at its last step
+        wit = tx.vin[0].witness
+        ci = len(wit) - 1 - (1 if annex is not None else 0)
+        which = rng.choice(["control", "control", "leaf"])
+        tgt = ci if which == "control" else ci - 1
+        b = bytearray(wit[tgt])
+        pos = rng.below(len(b)) if which == "leaf" else rng.choice([0, rng.range(1, 32), len(b) - 1])
+        b[pos] ^= rng.choice([0x01, 0x80])
+        wit[tgt] = bytes(b)
     out = {"tx": tx.ser().hex(), "txin": fund.ser().hex(), "kind": kind, "opts": opts}
     if select is not None:
         out["select"] = select
